@@ -6,7 +6,7 @@ import (
 	"pgregory.net/rapid"
 )
 
-var Paths = []string{"a", "b", "c", "a.b", "a.c", "b.a", "a.0", "a.1", "a.b.c", "a.0.b", "b.1.a", "a.b.0", "_id"}
+var Paths = []string{"a", "b", "c", "a.b", "a.c", "b.a", "a.0", "a.1", "a.b.c", "a.0.b", "b.1.a", "a.b.0", "_id", "ab"}
 
 var TypeSpecs = []interface{}{"double", "string", "object", "array", "binData", "objectId", "bool", "date", "null", "regex", "int", "timestamp", "long", "decimal", "number", int32(1), int32(2), int32(16), int64(18), float64(10), int32(4), int32(3)}
 
